@@ -313,7 +313,7 @@ fn concurrent(ctx: &mut Ctx, rng: &mut Rng, i: u64) {
                     let cfg = PopenConfig {
                         stdin: if (t + r) % 2 == 0 { Redirection::Pipe } else { Redirection::None },
                         stdout: Redirection::Pipe,
-                        stderr: if r % 3 == 0 { Redirection::Pipe } else { Redirection::None },
+                        stderr: match r % 4 { 0 => Redirection::Pipe, 1 => Redirection::Merge, _ => Redirection::None },
                         ..Default::default()
                     };
                     match Popen::create(&argv, cfg) {
@@ -362,7 +362,94 @@ fn concurrent(ctx: &mut Ctx, rng: &mut Rng, i: u64) {
     run::end_case();
 }
 
+/// The parent has closed two of its own standard descriptors, so the pipes the library creates (the launch-status
+/// channel first) get the numbers 0/1/2 themselves; streams the spawn leaves alone must stay closed in the child.
+fn parent_std_closed(ctx: &mut Ctx, rng: &mut Rng, i: u64) {
+    run::begin_case();
+    let dir = ctx.scratch("c08x");
+    let exe = spawn::report_exe(ctx, &dir, "x", "x");
+    let pairs = [(0, 1), (0, 2), (1, 2)];
+    let (a, b) = pairs[(i % 3) as usize];
+    // which of the remaining configurations: everything inherited, or the still-open stream piped
+    let third = 3 - a - b;
+    let pipe_third = rng.chance(500);
+    let _hole = crate::inspect::PROC_LOCK.lock().unwrap_or_else(|e| e.into_inner());
+    let argv = vec![exe.clone().into_os_string()];
+    // (the redirection files are opened while all descriptors are still in place, so they get high numbers)
+    let config = {
+        let redirect_a = rng.chance(500);
+        let redirect_b = rng.chance(500);
+        let mk = |s: i32| {
+            if s == third && pipe_third {
+                Redirection::Pipe
+            } else if (s == a && redirect_a) || (s == b && redirect_b) {
+                Redirection::File(std::fs::OpenOptions::new().read(true).write(true).open("/dev/null").unwrap())
+            } else {
+                Redirection::None
+            }
+        };
+        PopenConfig { stdin: mk(0), stdout: mk(1), stderr: mk(2), ..Default::default() }
+    };
+    let (sa, sb) = unsafe {
+        let sa = libc::syscall(libc::SYS_fcntl, a, libc::F_DUPFD_CLOEXEC, 100) as i32;
+        let sb = libc::syscall(libc::SYS_fcntl, b, libc::F_DUPFD_CLOEXEC, 100) as i32;
+        libc::syscall(libc::SYS_close, a);
+        libc::syscall(libc::SYS_close, b);
+        (sa, sb)
+    };
+    let m = run::monitored(|| Popen::create(&argv, config));
+    let evs = m.events();
+    let res = m.result;
+    let mut popen = None;
+    let launched = match res {
+        Some(Ok(p)) => {
+            popen = Some(p);
+            true
+        }
+        _ => false,
+    };
+    let rep = if launched { spawn::get_report(&exe, 3000) } else { None };
+    if let Some(mut p) = popen {
+        let _ = crate::ilog::quiet(|| p.wait());
+    }
+    unsafe {
+        libc::syscall(libc::SYS_dup3, sa, a, 0);
+        libc::syscall(libc::SYS_dup3, sb, b, 0);
+        libc::syscall(libc::SYS_close, sa);
+        libc::syscall(libc::SYS_close, sb);
+    }
+    drop(_hole);
+    ctx.count("spawns_with_two_parent_std_descriptors_closed", 1);
+    if let Some(rep) = rep {
+        let lib: BTreeSet<u64> = spawn::lib_pipes(&evs).iter().map(|p| p.ino).collect();
+        // here descriptors 0/1/2 count too: a stream the spawn left alone was closed in the parent and must not
+        // turn out to be one of the library's own pipes in the child
+        let mut bad = vec![];
+        for f in &rep.fds {
+            if let Some(ino) = f.pipe_ino() {
+                let is_own_stream = f.fd == third && pipe_third;
+                if lib.contains(&ino) && !is_own_stream {
+                    bad.push(format!("child fd {} -> pipe:[{}] ({} end)", f.fd, ino, if f.writable() { "write" } else { "read" }));
+                }
+            }
+        }
+        ctx.count("children_audited", 1);
+        ctx.count("children_audited.parent-std-closed", 1);
+        if !bad.is_empty() {
+            ctx.violation(
+                "C08/parent-std-closed/launch-status-channel-or-foreign-pipe",
+                "with two of the parent's standard descriptors closed, the child holds a pipe the library created that is not one of its requested streams (the launch-status channel landed on a standard descriptor number and was kept)",
+                J::obj().set("closed_in_parent", J::s(&format!("{} and {}", a, b))).set("foreign", J::arr_s(&bad)).set("child_fds", spawn::report_json(&rep)).set("events", J::arr_s(&ilog::fmt_tail(&evs, 30))),
+            );
+        }
+    }
+    ctx.distinct(&format!("closed{}{}{}", a, b, pipe_third));
+    run::end_case();
+}
+
 pub fn run(ctx: &mut Ctx) {
+    let nx = ctx.n(120, 1500);
+    ctx.family("parent-std-closed", nx, parent_std_closed);
     let ns = ctx.n(640, 15_000);
     ctx.family("sequential", ns, sequential);
     let np = ctx.n(320, 8000);
